@@ -177,6 +177,7 @@ type c05Obs struct {
 	NumServer int
 	// server processes still alive at the very moment run() returned
 	LiveAtReturn []int
+	done         chan struct{}
 }
 
 func c05Flags(sc c05Scenario) *Flags {
@@ -240,68 +241,79 @@ func c05RunOne(t *testing.T, sc c05Scenario, prefix []int, expect []gate.PointRe
 	}()
 	synctest.Test(t, func(t *testing.T) {
 		x = gate.Begin(prefix, expect)
-		obs = &c05Obs{}
-		obs.Expected, obs.LibErr = c05Expected(sc)
-		w := &psWorld{x: x}
-		obs.World = w
-		w.serverScript = func(k int, kind string) c11Scenario {
-			s := c11Scenario{StdinErr: "none", Resp: "ok", ExitAfter: -1, SendErrAt: -1}
-			if k == sc.FailStart {
-				s.StartErr = true
-			}
-			return s
-		}
-		w.answer = func(kind string, j int, req *conformancev1.ClientCompatRequest) *conformancev1.ClientCompatResponse {
-			return psPassResponse(req)
-		}
-		if sc.ClientFault != "" {
-			w.clientScript = func(k int, kind string) fakeScript {
-				if k == 0 {
-					return fakeScript{Fault: sc.ClientFault, FaultAt: sc.ClientFaultAt}
-				}
-				return fakeScript{Fault: "none"}
-			}
-		}
-		remove := w.install()
-		defer remove()
-		var mu sync.Mutex
-		if !gateNoCache {
-			x.KeyFn = func() string {
-				mu.Lock()
-				defer mu.Unlock()
-				return w.stateKey() + fmt.Sprintf("|ret=%v", obs.Returned)
-			}
-		}
-		suites := c05Suites(sc.Suites)
-		logP, errP := &c11Printer{}, &c11Printer{}
-		x.Go("run", func() {
-			var runT, skipT *testTrie
-			if len(sc.Run) > 0 {
-				runT = parsePatterns(sc.Run)
-			}
-			if len(sc.Skip) > 0 {
-				skipT = parsePatterns(sc.Skip)
-			}
-			results, err := run(c05Configs(sc.Cfg), &testTrie{}, &testTrie{}, runT, skipT, suites, logP, errP, c05Flags(sc))
-			w.mu.Lock()
-			liveNow := w.liveLocked()
-			w.mu.Unlock()
-			mu.Lock()
-			obs.Returned = true
-			obs.LiveAtReturn = liveNow
-			obs.Results = results
-			if err != nil {
-				obs.RunErr = err.Error()
-			}
-			mu.Unlock()
-		})
+		var finish func()
+		obs, finish = c05Body(x, sc)
 		x.Run(time.Hour, nil)
 		obs.Verdicts = c05Judge(sc, obs, x)
 		x.End()
-		w.killAll()
+		finish()
 		synctest.Wait()
 	})
 	return
+}
+
+// c05Body sets the scenario up and starts run() on its own thread; x == nil
+// means free-running (race-detector pass). The returned function tears down.
+func c05Body(x *gate.Exec, sc c05Scenario) (*c05Obs, func()) {
+	obs := &c05Obs{done: make(chan struct{})}
+	obs.Expected, obs.LibErr = c05Expected(sc)
+	w := &psWorld{x: x}
+	obs.World = w
+	w.serverScript = func(k int, kind string) c11Scenario {
+		s := c11Scenario{StdinErr: "none", Resp: "ok", ExitAfter: -1, SendErrAt: -1}
+		if k == sc.FailStart {
+			s.StartErr = true
+		}
+		return s
+	}
+	w.answer = func(kind string, j int, req *conformancev1.ClientCompatRequest) *conformancev1.ClientCompatResponse {
+		return psPassResponse(req)
+	}
+	if sc.ClientFault != "" {
+		w.clientScript = func(k int, kind string) fakeScript {
+			if k == 0 {
+				return fakeScript{Fault: sc.ClientFault, FaultAt: sc.ClientFaultAt}
+			}
+			return fakeScript{Fault: "none"}
+		}
+	}
+	remove := w.install()
+	var mu sync.Mutex
+	if x != nil && !gateNoCache {
+		x.KeyFn = func() string {
+			mu.Lock()
+			defer mu.Unlock()
+			return w.stateKey() + fmt.Sprintf("|ret=%v", obs.Returned)
+		}
+	}
+	suites := c05Suites(sc.Suites)
+	logP, errP := &c11Printer{}, &c11Printer{}
+	x.Go("run", func() {
+		var runT, skipT *testTrie
+		if len(sc.Run) > 0 {
+			runT = parsePatterns(sc.Run)
+		}
+		if len(sc.Skip) > 0 {
+			skipT = parsePatterns(sc.Skip)
+		}
+		results, err := run(c05Configs(sc.Cfg), &testTrie{}, &testTrie{}, runT, skipT, suites, logP, errP, c05Flags(sc))
+		w.mu.Lock()
+		liveNow := w.liveLocked()
+		w.mu.Unlock()
+		mu.Lock()
+		obs.Returned = true
+		obs.LiveAtReturn = liveNow
+		obs.Results = results
+		if err != nil {
+			obs.RunErr = err.Error()
+		}
+		mu.Unlock()
+		close(obs.done)
+	})
+	return obs, func() {
+		remove()
+		w.killAll()
+	}
 }
 
 func c05Judge(sc c05Scenario, obs *c05Obs, x *gate.Exec) []gateVerdict {
@@ -309,12 +321,16 @@ func c05Judge(sc c05Scenario, obs *c05Obs, x *gate.Exec) []gateVerdict {
 	add := func(key, format string, a ...any) {
 		out = append(out, gateVerdict{key, fmt.Sprintf(format, a...)})
 	}
-	if x.Overrun {
+	if x != nil && x.Overrun {
 		add("step-overrun", "execution did not finish within %d steps", x.MaxSteps)
 		return out
 	}
 	if !obs.Returned {
-		add("run-never-returns", "run() did not return within a virtual hour; parked: %v", x.Waiting())
+		var parked []string
+		if x != nil {
+			parked = x.Waiting()
+		}
+		add("run-never-returns", "run() did not return within a virtual hour; parked: %v", parked)
 		return out
 	}
 	w := obs.World
@@ -573,5 +589,54 @@ func TestVerifC05TLS(t *testing.T) {
 				}
 			}
 		}
+	}
+}
+
+// TestVerifC05Race runs the fault-free scenarios free (real goroutines, real sync and
+// semaphore, real time) under the race detector, judged by the same oracle.
+func TestVerifC05Race(t *testing.T) {
+	r := rep.New("c05-race")
+	defer r.Write()
+	r.Rule = "the C05 scenarios without client faults executed free-running under the race detector, several times each, judged by the same invariants; non-trivial = distinct scenario"
+	gate.SetFreeRunning(true)
+	defer gate.SetFreeRunning(false)
+	reps := 3
+	if rep.Thorough() {
+		reps = 10
+	}
+	var k int64
+	for _, sc := range c05Scenarios(rep.Thorough()) {
+		if sc.ClientFault != "" {
+			continue
+		}
+		k++
+		if !r.Mine(k) {
+			continue
+		}
+		for i := 0; i < reps; i++ {
+			obs, finish := c05Body(nil, sc)
+			select {
+			case <-obs.done:
+			case <-time.After(60 * time.Second):
+			}
+			// servers exit on their own goroutines after being told to stop
+			for j := 0; j < 2000 && len(func() []int { obs.World.mu.Lock(); defer obs.World.mu.Unlock(); return obs.World.liveLocked() }()) > 0 && obs.Returned; j++ {
+				time.Sleep(100 * time.Microsecond)
+			}
+			verdicts := c05Judge(sc, obs, nil)
+			finish()
+			r.Eval(1)
+			r.Outcome(c05Outcome(sc, obs))
+			for _, v := range verdicts {
+				r.Violate(v.key, v.detail+" | free-running", map[string]any{"scenario": sc, "choices": []int{}})
+			}
+		}
+		r.NonTrivial("")
+		if k%30 == 1 {
+			r.Sample(sc)
+		}
+	}
+	if len(r.Samples) == 0 {
+		r.Sample("no scenario in this shard")
 	}
 }
